@@ -420,17 +420,23 @@ def model_eval(model, case, impl=None):
         return unstack(b2fs(r["out"])), None
     if fam == "nuclear":
         M = v.reshape(tuple(case["shape"]))
+        import scico.numpy as snp
+
         if cplx:
-            # complex matrices: model on the singular values only (numpy SVD; outside the matrix theorem C02_nuclear)
-            U, s, Vh = np.linalg.svd(M, full_matrices=False)
-            r = model.call("nuclear_sv", v=fs2b(s), lam=lam)
-            s2 = np.asarray(b2fs(r["out"]))
-            return ((U * s2) @ Vh).ravel(), None
+            # complex matrices: complex factors of the code's own SVD, product formed by the model (C02_nuclear_complex)
+            Mj = snp.array(M.astype(np_dtype(case)))
+            U, s, Vh = (np.asarray(t) for t in snp.linalg.svd(Mj, full_matrices=False))
+            U, Vh, s = U.astype(np.complex128), Vh.astype(np.complex128), np.asarray(s, dtype=np.float64)
+            m_, n_ = M.shape
+            k_ = s.size
+            r = model.call("nuclear_fullc", m=m_, n=n_, k=k_, ure=fs2b(U.real.ravel()), uim=fs2b(U.imag.ravel()), s=fs2b(s),
+                           vhre=fs2b(Vh.real.ravel()), vhim=fs2b(Vh.imag.ravel()), lam=lam)
+            usv = (np.asarray(b2fs(r["usvre"])) + 1j * np.asarray(b2fs(r["usvim"]))).reshape(m_, n_)
+            case["_svd"] = svd_contract(M, U, s, Vh, usv, 1e-4 if case.get("dtype") == "float32" else 1e-10)
+            return _cx(r), None
         # real matrices: the factors returned by the code's own SVD call (`snp.linalg.svd(v, full_matrices=False)`) are handed
         # to the model, which forms `U diag(max(0, s - lam)) Vh` itself; the hypotheses of C02_nuclear (the SVD contract) are
         # checked numerically on these factors by `svd_contract`
-        import scico.numpy as snp
-
         Mj = snp.array(M.astype(real_dtype(case)))
         U, s, Vh = (np.asarray(t, dtype=np.float64) for t in snp.linalg.svd(Mj, full_matrices=False))
         m_, n_ = M.shape
@@ -504,9 +510,9 @@ def svd_contract(M, U, s, Vh, usv_model, tol):
     U diag(s) Vh = M (the product formed by the MODEL).  Returns the list of violated items."""
     bad = []
     k = s.size
-    if np.max(np.abs(U.T @ U - np.eye(k)), initial=0.0) > tol * 10:
+    if np.max(np.abs(U.conj().T @ U - np.eye(k)), initial=0.0) > tol * 10:
         bad.append("columns of U not orthonormal")
-    if np.max(np.abs(Vh @ Vh.T - np.eye(k)), initial=0.0) > tol * 10:
+    if np.max(np.abs(Vh @ Vh.conj().T - np.eye(k)), initial=0.0) > tol * 10:
         bad.append("rows of Vh not orthonormal")
     if np.any(s < 0):
         bad.append("negative singular value")
